@@ -90,6 +90,7 @@ func Load(repo string, env []string) (*World, error) {
 	}
 	prog.Build()
 	w.indexFuncs()
+	w.buildExpansion()
 	return w, nil
 }
 
